@@ -282,7 +282,7 @@ func cmdPatchSelftest(dir string, keep bool, filter string) int {
 	type res struct{ status, detail string }
 	rs := make([]res, len(run))
 	var wg sync.WaitGroup
-	sem := make(chan struct{}, 5)
+	sem := make(chan struct{}, 10)
 	for i := range run {
 		wg.Add(1)
 		go func(i int) {
@@ -336,7 +336,7 @@ func runPatchesFor(id string, r *Report) int {
 	type res struct{ status, detail string }
 	rs := make([]res, len(run))
 	var wg sync.WaitGroup
-	sem := make(chan struct{}, 4)
+	sem := make(chan struct{}, 8)
 	for i := range run {
 		wg.Add(1)
 		go func(i int) {
